@@ -923,7 +923,10 @@ def _aligned_edges(obs, lo, hi, G, N):
         faces = np.unique(np.round(faces / (1e-9 * scale)).astype(np.int64)) * (1e-9 * scale)
         e = np.linspace(lo[ax] - pad, hi[ax] + pad, G + 1)
         if 2 <= len(faces) <= N + 1:
-            inner = [faces[np.argmin(np.abs(faces - t))] for t in e[1:-1]]
+            # snap a cut to the nearest box face, unless the lattice does not reach that far (then
+            # the regular cut stays: cells beyond the observed boxes keep their resolution)
+            half = (e[1] - e[0]) / 2
+            inner = [faces[np.argmin(np.abs(faces - t))] if np.min(np.abs(faces - t)) <= half else t for t in e[1:-1]]
             e = np.array([min(lo[ax] - pad, faces[0])] + inner + [max(hi[ax] + pad, faces[-1])])
             e = np.unique(e)
             if len(e) < 2:
@@ -1768,12 +1771,19 @@ def history_cases(tier):
     seqs = [()] + [(a,) for a in names]
     if tier == "thorough":
         seqs += [(a, b) for a in names for b in names]
-    small = {"quick": dict(N=6, G=2, q=6, Gs=2, qs=8, own=40), "thorough": dict(N=12, G=4, q=6, Gs=4, qs=6, own=100)}
+    small = {"quick": dict(N=6, G=2, q=6, Gs=6, qs=2, own=40), "thorough": dict(N=12, G=4, q=6, Gs=12, qs=2, own=100)}
     cases = []
     n = 0
-    for seq in seqs:
-        for fin in names:
-            ops = ("intersect", "difference") if tier == "thorough" else (("intersect", "difference")[n % 2],)
+    h = HBOX_DIMS[2] + 1
+    for si, seq in enumerate(seqs):
+        finals = [(nm, place[nm]) for nm in names]
+        if seq:
+            # also straddling the bottom / top of the prism the LAST partner would cache
+            c = place[seq[-1]]
+            half = 100 * max(1, c) * h / 2
+            finals += [("last-bottom", c - half), ("last-top", c + half)]
+        for fi, (fin, zfin) in enumerate(finals):
+            ops = ("intersect", "difference") if tier == "thorough" else (("intersect", "difference")[(si + fi) % 2],)
             for op in ops:
                 via = "polygon" if n % 3 == 2 else "direct"
                 kind = "lmesh" if (tier == "thorough" and n % 5 == 4) else "box"
@@ -1782,7 +1792,7 @@ def history_cases(tier):
                     k="history",
                     objects={"fp": dict(k="footprint", polys=FP_POLY, via=via)},
                     pre=pre,
-                    body=_c(op, _hbox(place[fin], kind), dict(k="ref", name="fp")),
+                    body=_c(op, _hbox(zfin, kind), dict(k="ref", name="fp")),
                     params=small,
                 )
                 cases.append((f"history:{'>'.join(seq) or 'none'}=>{op}@{fin}", spec))
